@@ -47,6 +47,13 @@
 #else
 #define V_FREES_CALLEE(...) V_FREES(__VA_ARGS__)
 #endif
+/* codec hook stand-ins: their frees are part of the contract only where the REAL hook is enforced against it
+ * (units/codec.c); as assumptions the stand-ins leak the old buffers (model only) */
+#ifdef VERIF_ENFORCE_HOOK_FREES
+#define V_FREES_HOOK(...) V_FREES(__VA_ARGS__)
+#else
+#define V_FREES_HOOK(...)
+#endif
 
 /* Tie the first bytes of a harness-built buffer of symbolic size n to a fixed-size array of the
  * input record, position by position and loop-free (CBMC: assumptions on the nondet heap
